@@ -196,6 +196,14 @@ def chunk : Op → Nat
   | .arrJoin3 | .arrFromRange | .recMap | .recPermute | .recMultiplyDisjoint | .contMake | .gridMap | .gridApply2 | .gridResize
   | .treeCtor | .treePushValue | .treePushTree | .treeRelease | .treeMap | .optsFlag | .optsOption | .parseSequence
   | .parseRepetition => 2
+  | .algFindOpt | .algIndexOf | .algContains | .algFindIfOpt | .algFindByOpt | .algGenerateN
+  | .algMapIteration | .algMapIterationSecond | .algSeqIteration
+  | .contInsert | .contSetUnion | .contSetDifference | .contSetIntersection | .contMapValuesCopy
+  | .contAtOptional | .contMaybeBack | .contMaybeFront | .contFindOptMapped | .contIndexMapGet
+  | .treeCtorTree | .treeCtorChildren | .treeAssign | .treeSelfAssign | .treeSetValue
+  | .treePushFrontValue | .treeInsertValue | .treePushFrontTree | .treeInsertTree | .treePopBack | .treePopFront
+  | .treeErase | .treeEraseRange | .treeClear | .treeSort
+  | .gridCtorFn | .gridCtorValue | .gridCtorRows2 | .gridStaticRow2 | .gridCtorGrid | .gridAssign | .gridSelfAssign | .gridFill => 3
   | _ => 0
 
 /-- the common part of the `Covers` proofs: after `cases o`, goals of other chunks are closed, the value categories are substituted
@@ -309,13 +317,38 @@ theorem prog_covers_2 (o : Op) (inp : Input) (a : Nat) (hc : chunk o = 2) (hw : 
     rw [← hs.1.2, ← hs.2, hk.1, hk.2]
     exact Nat.le_refl _
 
-theorem chunk_le (o : Op) : chunk o = 0 ∨ chunk o = 1 ∨ chunk o = 2 := by cases o <;> decide
+theorem prog_covers_3 (o : Op) (inp : Input) (a : Nat) (hc : chunk o = 3) (hw : wf o inp = true) (hk : keeps o inp a = true)
+    (ha : inp.cat a = some .rv) : Covers a (inp.size a) (prog o inp) := by
+  have hr : inp.isRv a = true := (isRv_iff inp a).2 ha
+  have hlt := arg_lt_of_rv ha
+  have hmv : inp.isMv a = true := by simp [Input.isMv, ha]
+  have hs := shape_of_wf hw
+  cases o <;> covers_script
+  case treeCtorTree => exact covers_head_one _ _ _ hs.1.2
+  case treeCtorTree =>
+    have hr0 : inp.isRv 0 = true := by
+      have := hs.1.1.2
+      simp only [Input.isRv] at hr ⊢
+      rw [this]; exact hr
+    rw [if_pos hr0]
+    exact covers_cons _ (covers_steal _ _ _)
+  case treeCtorChildren => exact covers_head_one _ _ _ hs.1.2
+  case treeCtorChildren =>
+    have hr0 : inp.isRv 0 = true := by
+      obtain ⟨c, hc0, hm⟩ := (catIn_iff inp 0 _).1 hs.1.1.1.2
+      simp at hm; subst hm
+      exact (isRv_iff inp 0).2 hc0
+    rw [if_pos hr0]
+    exact covers_cons _ (covers_steal _ _ _)
+
+theorem chunk_le (o : Op) : chunk o = 0 ∨ chunk o = 1 ∨ chunk o = 2 ∨ chunk o = 3 := by cases o <;> decide
 
 theorem prog_covers (o : Op) (inp : Input) (a : Nat) (hw : wf o inp = true) (hk : keeps o inp a = true)
     (ha : inp.cat a = some .rv) : Covers a (inp.size a) (prog o inp) := by
-  rcases chunk_le o with hc | hc | hc
+  rcases chunk_le o with hc | hc | hc | hc
   · exact prog_covers_0 o inp a hc hw hk ha
   · exact prog_covers_1 o inp a hc hw hk ha
   · exact prog_covers_2 o inp a hc hw hk ha
+  · exact prog_covers_3 o inp a hc hw hk ha
 
 end Fcppt.C05
